@@ -64,7 +64,7 @@ public:
   bool en1_, en2_;
   size_t cap_;
   ObjFn(int family, size_t n, const std::vector<double>& k, const std::vector<double>& x0, Log* log) :
-    AbstractParametrizable(""), family_(family), n_(n), k_(k), log_(log), en1_(true), en2_(true), cap_(400000)
+    AbstractParametrizable(""), family_(family), n_(n), k_(k), log_(log), en1_(true), en2_(true), cap_(100000)
   {
     for (size_t i = 0; i < n; ++i) addParameter_(new Parameter(pname(i), x0[i]));
   }
